@@ -26,6 +26,13 @@ const (
 var SpecDir = "/verif/spec"
 var WorkDir = "/verif/.work"
 
+// development aid: a scratch copy of the specifications can be used instead of /verif/spec
+func init() {
+	if v := os.Getenv("VERIF_SPECDIR"); v != "" {
+		SpecDir = v
+	}
+}
+
 type Opts struct {
 	Module   string            // e.g. "Handle_MC" (file Module.tla)
 	Config   string            // e.g. "Handle_MC.cfg"
